@@ -12,6 +12,9 @@ static void emit_context_error(
     const char *hint
 );
 
+/* Set by emit_context_error for every non-warning diagnostic; consulted by type_check() */
+static bool g_typecheck_error_reported = false;
+
 /* Type checking context */
 typedef struct {
     Environment *env;
@@ -3870,6 +3873,12 @@ static void emit_context_error(
     const char *message,
     const char *hint
 ) {
+    /* Expression checking has no TypeChecker to flag: a diagnostic that is not a warning is
+     * recorded here, and type_check() fails when one was printed (a program with a reported
+     * type error must never be compiled or run). */
+    if (!(strstr(title, "WARNING") || strstr(title, "Warning"))) {
+        g_typecheck_error_reported = true;
+    }
     if (g_typecheck_current_file) {
         print_error_header(title, g_typecheck_current_file);
     } else {
@@ -4797,6 +4806,7 @@ bool type_check(ASTNode *program, Environment *env) {
     TypeChecker tc;
     tc.env = env;
     tc.has_error = false;
+    g_typecheck_error_reported = false;
     tc.warnings_enabled = true;  /* Enable unused variable warnings */
     tc.in_unsafe_block = false;  /* Start outside unsafe blocks */
     tc.loop_depth = 0;           /* Start outside loops */
@@ -5603,7 +5613,7 @@ sdef.is_pub = item->as.struct_def.is_pub;            /* Propagate public visibil
         tc.has_error = true;
     }
 
-    return !tc.has_error;
+    return !tc.has_error && !g_typecheck_error_reported;
 }
 
 /* Type check a module (without requiring main function) */
@@ -6262,5 +6272,5 @@ sdef.is_pub = item->as.struct_def.is_pub;            /* Propagate public visibil
     /* Note: Modules don't require a main function */
     /* Main function check is skipped for modules */
 
-    return !tc.has_error;
+    return !tc.has_error && !g_typecheck_error_reported;
 }
